@@ -132,6 +132,8 @@ let handle fields impl : string option * string list =
         ["findcontent-wrong-bytes stream-framing-differs-from-the-negotiated-version " ^ op]
       else [] in
     (Some m, mons)
+  | ("lfc" :: _ | "lfe" :: _) when starts impl "unobserved" -> (None, [])   (* a timeout on a loaded machine proves nothing either way *)
+  | "live-unobserved" :: _ -> (None, [])
   | ["lfc"; _; _; size; ";"; want] ->
     (* live transfer: exercised, not proved.  Expected: selector raw (1) up to the threshold, connection id (0) above; the bytes obtained are the stored ones *)
     let sz = int_of_string size in
